@@ -146,6 +146,35 @@ CHECKS = {
         "level_note": "in-process repetition relies on Go re-randomising map iteration per loop; child processes re-run the same test binary",
         "assumptions": ["with two or more independent injected errors the error text may depend on file order: at most one error is injected"],
     },
+    "C15": {
+        "test": "TestC15", "level": "exploration",
+        "quick": {"shards": 8, "checks": 800, "timeout": 900},
+        "thorough": {"shards": 16, "checks": 20000, "timeout": 3400},
+        "exhaustive_key": "exhaustive_runs_x_neighbours",
+        "exhaustive_note": "every comment-free text run over the 13-character alphabet up to length 4 (thorough: 5) between each of 8 neighbour kinds is enumerated (partitioned over the shards); the random part (long runs, comments, literals) is not exhaustive",
+        "rule": "L1: text runs over {a < > space tab CR LF / e-acute NBSP U+2028 VT FF} between 8 kinds of neighbour (template edges, prints, {sp}, {nil}, block "
+                "edges, calls, literals), exhaustively up to the length bound plus random runs up to 60 (thorough 200) characters; L2: sequences of "
+                "text pieces, line comments and block comments; L3: literal blocks with arbitrary content and special-character commands; "
+                "non-trivial (L1) = the run has a line break and a non-whitespace character; L2/L3 cases are all non-trivial",
+        "technique": "exhaustive enumeration of short inputs plus property-based testing (rapid) against a reference normaliser transcribed from the statement",
+        "level_text": "exhaustive for runs up to the length bound, generated-input search beyond it; exact equality with the reference normaliser for comment-free text",
+        "level_note": "trusts ref.NormalizeText (25 lines); at a comment boundary only what the statement fixes is judged (no comment text in the output, non-whitespace text intact, ://-text verbatim)",
+        "assumptions": ["join spacing where a comment separates two text pieces is not judged"],
+    },
+    "C17": {
+        "test": "TestC17", "level": "exploration", "crashy": True,
+        "quick": {"shards": 8, "checks": 6000, "timeout": 900},
+        "thorough": {"shards": 16, "checks": 80000, "timeout": 3400},
+        "fuzz": [{"name": "FuzzExprRoundTrip", "time": "120s"}],
+        "rule": "arbitrary (not necessarily well-typed) expression trees up to depth 4 (thorough 6) over every operator, literal spelling (escaped strings, "
+                "negative and hexadecimal integers, floats in fraction and exponent form), access form, function call, list and map literal "
+                "(keys needing escapes), printed with minimal or redundant parentheses; one case in five as a whole print command with a "
+                "directive chain; non-trivial = some operator has an operand of lower or equal precedence (parentheses matter)",
+        "technique": "property-based round-trip testing (rapid): parse -> print -> parse structural equality, plus parser-vs-generator-tree equality",
+        "level_text": PBT + "both the round trip and the first parse against the generator's own tree must agree structurally",
+        "level_note": "trees are compared after conversion to the harness model (positions and source spelling dropped); the mutual nesting of ?: and ? : is always written with parentheses",
+        "assumptions": [],
+    },
     "C18": {
         "test": "TestC18", "level": "exploration", "crashy": True,
         "quick": {"shards": 6, "checks": 250, "timeout": 900, "shrinktime": "30s"},
@@ -157,6 +186,19 @@ CHECKS = {
         "level_text": PBT + "after each sequence the goroutine dump must contain no scanner frame beyond the baseline and the goroutine count must be back",
         "level_note": "settle bound 2 s; a leaked scanner blocks forever on its channel so the bound cannot produce a false alarm unless the machine stalls a runnable goroutine for 2 s",
         "assumptions": [],
+    },
+    "C19": {
+        "test": "TestC19", "level": "exploration",
+        "quick": {"shards": 8, "checks": 250, "timeout": 900},
+        "thorough": {"shards": 16, "checks": 4000, "timeout": 3400},
+        "rule": "valid files built one construct per line (9 block kinds nested up to depth 2, 16 simple constructs, optional header lines, LF or CRLF, 5 file "
+                "names); parse side: one of 9 fault kinds inserted before EVERY body line in turn; render side: a failing print, or a call chain of "
+                "depth 1-3 across files ending in a failing print, inserted before EVERY executed body line in turn; non-trivial = the body has "
+                ">= 2 lines (fault positions that are neither first nor last exist); counters report the fault positions tried",
+        "technique": "fault injection enumerated over every line of generated files (rapid generates the files) with an exact position oracle",
+        "level_text": PBT + "per file exhaustive over fault lines: file name, line within the input, line of the fault (exact for single-line faults), and the same numbers in the message",
+        "level_note": "for unterminated constructs any line from the opening line to the end is accepted; for render errors the line of an enclosing block command is also accepted",
+        "assumptions": ["fault kinds were chosen to be errors at every position (e.g. a condition-less {if}, not {else}, which is legal inside an if block)"],
     },
     "C20": {
         "test": "TestC20", "level": "exploration",
